@@ -544,6 +544,27 @@ def rule_T11(ctx: Ctx) -> None:
     ung = ctx.index.func(f"{MT}.EdgeGroupings.Ungrouped._group_edges")
     r = X.returns_of(ung.node)
     ctx.judge(ung, len(r) == 1 and X.same_expr(r[0].value, "np.expand_dims(edges, 1)"), {}, "Ungrouped: one group per edge")
+    # ByLeadingCoord: edges sorted with the leading coordinate as primary key, split where the leading coordinate (both components,
+    # compared as rows - no scalar re-encoding that could collide or overflow the int8 coordinates) changes
+    bl = ctx.index.func(f"{MT}.EdgeGroupings.ByLeadingCoord._group_edges")
+    e_ = bl.params()[1]
+    sp = [c for c in X.calls(bl.node) if dotted_of(c.func) in ("np.split", "numpy.split")]
+    ok = None
+    slot = {}
+    if len(sp) == 1 and len(sp[0].args) == 2:
+        arr = X.expand_locals(sp[0].args[0], bl.node)
+        idx = X.expand_locals(sp[0].args[1], bl.node)
+        slot = {"sorted": X.U(arr)[:160], "split_at": X.U(idx)[:200]}
+        ls = [c for c in ast.walk(arr) if isinstance(c, ast.Call) and dotted_of(c.func) in ("np.lexsort", "numpy.lexsort")]
+        keys_ok = False
+        if len(ls) == 1 and ls[0].args and isinstance(ls[0].args[0], (ast.Tuple, ast.List)) and len(ls[0].args[0].elts) >= 2:
+            k = [X.U(x).replace(" ", "") for x in ls[0].args[0].elts]
+            keys_ok = k[-1] == f"{e_}[:,0,0]" and k[-2] == f"{e_}[:,0,1]" and set(k[:-2]) <= {f"{e_}[:,1,0]", f"{e_}[:,1,1]"}
+        arr_ok = isinstance(arr, ast.Subscript) and X.U(arr.value) == e_ and keys_ok
+        idx_ok = X.same_expr(idx, f"np.unique({X.U(arr)}[:, 0, :], return_index=True, axis=0)[1][1:]")
+        ok = arr_ok and idx_ok
+    ctx.judge(bl, ok, slot, "ByLeadingCoord sorts edges by (lead row, lead col, ...) and starts a new group exactly where the leading coordinate row changes (np.unique(..., axis=0) on the coordinate pairs)",
+              "edges with different leading coordinates are merged into one group (or one coordinate's edges are split): the adjacency region lists edges under the wrong leading cell")
 
 
 def rule_T5(ctx: Ctx) -> None:
@@ -571,7 +592,7 @@ RULES = [
     Rule("C06.T8", rule_T8, floor=11, doc="path tokenization structure and step delimiters"),
     Rule("C06.T9", rule_T9, floor=3, doc="direction tables"),
     Rule("C06.T10", rule_T10, floor=5, doc="coordinate / target tokenizers"),
-    Rule("C06.T11", rule_T11, floor=7, doc="adjacency pipeline and permuters"),
+    Rule("C06.T11", rule_T11, floor=8, doc="adjacency pipeline and permuters"),
     Rule("C06.E12", lambda ctx: __import__("sa.mypyx", fromlist=["x"]).cross_check(ctx, [f"{MT}.MazeTokenizerModular.to_tokens"], "C06.E12"), floor=1,
          doc="thorough: call graph over-approximates mypy's type-resolved edges on the to_tokens closure", tier="thorough"),
 ]
